@@ -795,6 +795,23 @@ def rule_r7(prog, res):
                isinstance(a.targets[0], ast.Name) and isinstance(
                    a.value, ast.Call) and call_name(a.value) == 'validate'}
     for r in raises:
+        # a raise in the handler of the validate() call itself speaks about
+        # this call's exception
+        p_ = r
+        own = False
+        while p_ is not None and p_ is not f.node:
+            par = getattr(p_, '_parent', None)
+            if isinstance(p_, ast.ExceptHandler) and isinstance(
+                    par, ast.Try) and any(
+                    isinstance(c, ast.Call) and call_name(c) == 'validate'
+                    for st in par.body for c in ast.walk(st)):
+                own = True
+            p_ = par
+        if own:
+            res.ob('R7', '%s:%d' % (f.module.relpath, r.lineno),
+                   '%s rejects from the exception of its own validate() '
+                   'call' % f.qualname, 'ok')
+            continue
         atoms = guardspec.atoms_at(r, f.node)
         shared = [t for t, _ in atoms if 'self.' in t]
         local = [t for t, _ in atoms if any(
